@@ -403,7 +403,8 @@ def ly_bar_fill(rng, meter=None, key=None, max_entries=8):
         entries.append([v if v != int(v) or rng.random() < 0.5 else int(v), ns])
     return [key or rng.choice(ALL_KEYS), count, unit, entries]
 
-TITLES = ["Untitled", "", "Sonata", "Tom & Jerry", "a < b > c", "it's 5 o'clock", "Ünïcode ♪", "  padded  ", "x" * 80]
+TITLES = ["Untitled", "", "Sonata", "Tom & Jerry", "a < b > c", "it's 5 o'clock", "Ünïcode ♪", "  padded  ", "x" * 80,
+          "Suite\n\nNo. 1", "Op. 1 -- Allegro", "a--b-->c", "line\n   \nend", "<!-- x -->", "]]>", "tab\there"]
 
 def rand_comp(rng, xml=False):
     tracks = []
